@@ -82,6 +82,10 @@ def build_arg(desc):
         return [(desc["expr"], eval(desc["expr"], ns()))]
     if k == "new":
         return [("<new instance>", NEW)]
+    if k == "tuple":
+        pools = [build_arg(d)[:3] for d in desc["items"]]
+        return [("(" + ", ".join(l for l, _ in combo) + ("," if len(combo) == 1 else "") + ")", tuple(v for _, v in combo))
+                for combo in itertools.product(*pools)]
     if k == "list":
         return [(repr(desc["value"]).replace("'<object>'", "object()"),
                  [specrt.Witness() if x == "<object>" else x for x in desc["value"]])]
@@ -135,15 +139,39 @@ def resolve(qualname):
     raise ImportError(qualname)
 
 
+def install_ghosts():
+    """ghost state of the contracts, recorded by a wrapper in this process only (the repository is not touched):
+    CLASSARG(p) = the bracket text a class instance handed to __Class.__init__"""
+    import pregex.core.classes as cl
+    base = getattr(cl, "__Class")
+    if getattr(base.__init__, "_pvc_ghost", False):
+        return
+    orig = base.__init__
+
+    def init(self, pattern, is_negated, simplify_word=False):
+        self._ghost_classarg = pattern
+        return orig(self, pattern, is_negated, simplify_word)
+    init._pvc_ghost = True
+    base.__init__ = init
+
+
 def call_real(qualname, args):
     owner, f = resolve(qualname)
     args = dict(args)
     import inspect
+    install_ghosts()
+    pos = []
+    try:
+        for pn, prm in inspect.signature(f).parameters.items():
+            if prm.kind == inspect.Parameter.VAR_POSITIONAL and pn in args:
+                pos = list(args.pop(pn))
+    except (TypeError, ValueError):
+        pass
     if "self" in args:
         recv = args.pop("self")
-        r = f(recv, **args)
+        r = f(recv, *pos, **args)
     else:
-        r = f(**args)
+        r = f(*pos, **args)
     if inspect.isgenerator(r):
         r = list(r)          # E9: a generator function denotes the list of the values it yields
     return r
@@ -297,6 +325,16 @@ def pool_for(kind):
         return [("True", True), ("False", False)]
     if kind == "newobj":
         return [("<new instance>", NEW)]
+    if kind in ("varpre", "varpre_small", "varchars"):
+        from pvc_kinds import KIND_TAGS
+        rnd = random.Random(5)
+        out = []
+        for tag in KIND_TAGS[kind]:
+            parts = [pool_for([t]) for t in tag.split("|")] if tag else []
+            for _ in range(2):
+                combo = [rnd.choice(p) for p in parts]
+                out.append(("(" + ", ".join(l for l, _ in combo) + ("," if len(combo) == 1 else "") + ")", tuple(v for _, v in combo)))
+        return out
     if kind == "intx":
         return [(repr(i), i) for i in INT_POOL] + [("None", None), ("2.0", 2.0), ("'s'", "s"), ("object()", specrt.Witness())]
     if kind == "intnb":
